@@ -22,8 +22,8 @@ ID = "C17"
 COQ_IMPORT = "Corr.CNodes"
 COQ_CASE_TYPE = "g_case"
 COQ_CHECK = "g_check"
-THEOREMS = ["c17_check_reads_types_only", "c17_to_dict_ignores_cache", "c17_check_ignores_cache", "c17_write_reads_dict_only", "c17_inputs_sublist", "c17_outputs_sublist"]
-PROOF_FILES = ["Proofs/SerialProofs.v"]
+THEOREMS = ["c17_check_reads_types_only", "c17_to_dict_ignores_cache", "c17_check_ignores_cache", "c17_write_reads_dict_only", "c17_inputs_sublist", "c17_outputs_sublist", "c17_separate_reads_independent", "c17_to_dict_allocates_only"]
+PROOF_FILES = ["Proofs/SerialProofs.v", "Proofs/AliasProofs.v"]
 RULE = ("the C01 graph generator plus failing variants (unwritable metadata value None / object / uncopyable lock, "
         "out-of-range int, inconsistent types, dangling edges, a nested graph whose child was retyped after "
         "construction); random sequences of 1..6 observers from {to_dict, write, _check_types, inputs, outputs}; deep "
